@@ -102,6 +102,12 @@ theorem byteAt_set (b : AccessBitmap) (i k : Nat) (hi : i < 64) :
   · have : i / 8 ≠ k := by omega
     simp [hk, this]
 
+/-- positions ≥ 64 do not exist (Go would panic; the model answers `false`) -/
+theorem isSet_ge (b : AccessBitmap) (i : Nat) (h : 64 ≤ i) : b.isSet i = false := by
+  rw [isSet_eq_testBit]
+  have h8 : ¬ i / 8 < 8 := by omega
+  simp [byteAt, h8]
+
 @[simp] theorem isSet_zero (i : Nat) : zero.isSet i = false := by
   rw [isSet_eq_testBit]
   unfold byteAt zero
